@@ -622,7 +622,7 @@ def run_library(dialect, defs_dir, stream, strict=False, regs=None, snap_eid=Non
     raised = None
     try:
         try:
-            with common.time_limit(max(30.0, len(stream) / 5000.0)): pl.play(stream, strict)
+            with common.time_limit(max(6.0, len(stream) / 5000.0)): pl.play(stream, strict)
         except common.HangError: raised = 'HANG'
         except Exception as e: raised = impl.err_name(e)
         lib = list(rec.trace); lib.append('RAISED ' + raised if raised else 'DONE')
